@@ -84,6 +84,10 @@ pub struct Case16 {
     pub bytes: Vec<u8>,
     pub sched: IoSchedule,
     pub hashes: bool,
+    /// non-zero: before the calls that are judged, every decoder is first run on the first
+    /// `prelude` per-mille of the input (calls that mostly fail half-way) in the same thread
+    #[serde(default)]
+    pub prelude: u16,
 }
 
 fn triples_to_sx(b: &[u8], triples: &[ParsedTriple]) -> Option<Sx> {
@@ -138,7 +142,7 @@ impl Scenario for C16 {
             if rng.chance(1, 3) {
                 sched.hard = hard_fault_for(rng, bytes.len(), &[], true);
             }
-            return Case16 { bytes, sched, hashes };
+            return Case16 { bytes, sched, hashes, prelude: 0 };
         }
         if thorough && run < exhaustive_upto + (1 << 24) / 16 {
             // a 1/16 sample of the 3-byte strings, stratified by the first two bytes
@@ -149,6 +153,7 @@ impl Scenario for C16 {
                 bytes,
                 sched: IoSchedule::benign(rng, 8, false),
                 hashes,
+                prelude: 0,
             };
         }
         // rarely: a huge structure (up to 1.3 M nodes deep or long), built directly as bytes
@@ -181,6 +186,7 @@ impl Scenario for C16 {
                 bytes,
                 sched: IoSchedule::clean(),
                 hashes: rng.bool(),
+                prelude: 0,
             };
         }
         let mut cfg = TreeCfg::swarm(rng, thorough);
@@ -201,7 +207,8 @@ impl Scenario for C16 {
         if rng.chance(2, 5) {
             sched.hard = hard_fault_for(rng, bytes.len(), &boundaries, true);
         }
-        Case16 { bytes, sched, hashes }
+        let prelude = if rng.chance(1, 4) { 1 + rng.below(999) as u16 } else { 0 };
+        Case16 { bytes, sched, hashes, prelude }
     }
 
     fn execute(case: &Case16, _ctx: &Ctx) -> Outcome {
@@ -210,6 +217,17 @@ impl Scenario for C16 {
         let b = &case.bytes;
         fp.bytes(b);
         let mem_bound = MEM_PER_BYTE * b.len() + MEM_SLACK;
+
+        if case.prelude > 0 && b.len() >= 2 {
+            // earlier calls in this thread that (mostly) fail half-way; nothing is judged here
+            let cut = (b.len() * case.prelude as usize / 1000).clamp(1, b.len() - 1);
+            let pre = &b[..cut];
+            let mut a0 = Allocator::new();
+            let f1 = node_from_bytes(&mut a0, pre).is_err();
+            let f2 = tree_hash_from_stream(&mut Cursor::new(pre)).is_err();
+            let f3 = parse_triples(&mut Cursor::new(pre), case.hashes).is_err();
+            out.count("fault.prior_call_failed", f1 as u64 + f2 as u64 + f3 as u64);
+        }
 
         // --- client 1: node_from_bytes (contiguous)
         let ms = MemScope::start();
@@ -440,6 +458,9 @@ impl Scenario for C16 {
     fn shrink(case: &Case16) -> Vec<Case16> {
         let mut v = Vec::new();
         let n = case.bytes.len();
+        if case.prelude != 0 {
+            v.push(Case16 { prelude: 0, ..case.clone() });
+        }
         if !case.sched.steps.is_empty() || case.sched.hard.is_some() {
             v.push(Case16 {
                 sched: IoSchedule::clean(),
@@ -480,7 +501,7 @@ impl Scenario for C16 {
         json!({"bytes": hex_short(&case.bytes), "len": case.bytes.len(), "reader_steps": case.sched.steps.len(), "hard_fault": format!("{:?}", case.sched.hard), "hashes": case.hashes})
     }
     fn rule() -> &'static str {
-        "case = a byte string (first 65,793 runs: every string of length <=2; thorough: 1/16 of the 3-byte strings; 1 in 150,000 (thorough 1 in 20,000): a structure of 70 k .. 1.3 M nodes, left-nested or a list; otherwise classic serializations of seeded trees under storage-fault mutations: bit flip, byte overwrite, truncation at token boundaries +-1, dropped/duplicated range, splice, trailing bytes, random) + a reader schedule (short reads, EINTR; 40% with EOF or an I/O error armed at an offset near a token boundary). Three clients decode it: node_from_bytes and tree_hash_from_stream on contiguous bytes, parse_triples through the simulated reader (and contiguously as its own reference). Non-trivial: >=2 triples or >=3 input bytes; distinct = fingerprints of (input bytes, acceptance, fault counts)."
+        "case = a byte string (first 65,793 runs: every string of length <=2; thorough: 1/16 of the 3-byte strings; 1 in 150,000 (thorough 1 in 20,000): a structure of 70 k .. 1.3 M nodes, left-nested or a list; otherwise classic serializations of seeded trees (a quarter of them preceded, in the same thread, by a run of every decoder on a prefix of the input, i.e. by calls that fail half-way) under storage-fault mutations: bit flip, byte overwrite, truncation at token boundaries +-1, dropped/duplicated range, splice, trailing bytes, random) + a reader schedule (short reads, EINTR; 40% with EOF or an I/O error armed at an offset near a token boundary). Three clients decode it: node_from_bytes and tree_hash_from_stream on contiguous bytes, parse_triples through the simulated reader (and contiguously as its own reference). Non-trivial: >=2 triples or >=3 input bytes; distinct = fingerprints of (input bytes, acceptance, fault counts)."
     }
     fn default_runs(tier: Tier) -> u64 {
         match tier {
